@@ -1,7 +1,7 @@
 SPECIFICATION Spec
 CONSTANTS
   Owners = {1, 2, 3}
-  Design = "hashset"
+  Design = "rawmtime"
 PROPERTY DetAction
 INVARIANT ClampInv
 CHECK_DEADLOCK FALSE
